@@ -1,3 +1,4 @@
+#![allow(unexpected_cfgs)]
 pub mod canon;
 mod db;
 mod densemap;
@@ -32,3 +33,5 @@ use jemallocator::Jemalloc;
 #[cfg(not(any(miri, windows, target_arch = "wasm32")))]
 #[global_allocator]
 static GLOBAL: Jemalloc = Jemalloc;
+#[cfg(n2_verif)]
+pub mod verif;
